@@ -349,3 +349,117 @@ def run_persist(req):
 
 
 HANDLERS["persist"] = run_persist
+
+
+def run_learn(req):
+    import itertools
+    from opfython.models import supervised as sup
+    cfg = req["cfg"]
+    kind = cfg["kind"]
+    ntr, nv, ltr, lv = cfg["ntr"], cfg["nv"], cfg["ltr"], cfg["lv"]
+    W = [list(map(float, r)) for r in req["W"]]
+    table = lambda a, b: W[int(a[0])][int(b[0])]
+    Xt = np.array([[float(i)] for i in range(ntr)])
+    Yt = np.array(ltr, dtype=int)
+    Xv = np.array([[float(ntr + i)] for i in range(nv)])
+    Yv = np.array(lv, dtype=int)
+    bad = []
+    obs = {}
+
+    def snap(g):
+        return dict(cost=[float(nd.cost) for nd in g.nodes], pred=[int(nd.pred) for nd in g.nodes],
+                    plabel=[int(nd.predicted_label) for nd in g.nodes], status=[int(nd.status) for nd in g.nodes],
+                    tags=[float(nd.features[0]) for nd in g.nodes], label=[int(nd.label) for nd in g.nodes],
+                    order=[int(x) for x in g.idx_nodes])
+    opf = sup.SupervisedOPF()
+    opf.distance_fn = table
+    if kind == "learn":
+        draws = list(req.get("draws") or [])
+        it = iter(draws)
+        real_uniform = np.random.uniform
+
+        def fake(low=0.0, high=1.0, size=None):
+            try:
+                u = next(it)
+            except StopIteration:
+                u = low
+            return np.array([u]) if size is not None else u
+        iters = []
+        real_acc = sup.g.opf_accuracy
+
+        def spy(labels, preds):
+            a = real_acc(labels, preds)
+            iters.append((float(a), snap(opf.subgraph)))
+            return a
+        np.random.uniform = fake
+        sup.g.opf_accuracy = spy
+        try:
+            opf.learn(Xt, Yt, Xv, Yv, n_iterations=cfg["iters"])
+        except Exception as ex:
+            bad.append("learn-does-not-raise")
+            obs["error"] = "%s: %s" % (type(ex).__name__, str(ex)[:200])
+        finally:
+            np.random.uniform = real_uniform
+            sup.g.opf_accuracy = real_acc
+        if not bad:
+            before = sorted([(float(i), ltr[i]) for i in range(ntr)] + [(float(ntr + i), lv[i]) for i in range(nv)])
+            after = sorted([(float(Xt[i][0]), int(Yt[i])) for i in range(ntr)] + [(float(Xv[i][0]), int(Yv[i])) for i in range(nv)])
+            if before != after:
+                bad.append("multiset-of-(features,label)-pairs-conserved")
+            accs = [a for a, _ in iters]
+            best = max(range(len(accs)), key=lambda k: (accs[k], -k))
+            if snap(opf.subgraph) != iters[best][1]:
+                bad.append("object-holds-the-best-iteration's-classifier")
+            obs.update(accs=accs, after=after)
+    elif kind == "relevance":
+        opf.fit(Xt, Yt)
+        s = snap(opf.subgraph)
+        preds = [int(p) for p in opf.predict(Xv)]
+        rel = [int(nd.relevant) for nd in opf.subgraph.nodes]
+        n = ntr
+
+        def chain(t):
+            c = [t]
+            while s["pred"][c[-1]] != -1:
+                c.append(s["pred"][c[-1]])
+            return c
+        ok = False
+        per = []
+        for qi, p in enumerate(preds):
+            vals = [max(s["cost"][t], W[t][ntr + qi]) for t in range(n)]
+            mn = min(vals)
+            per.append([t for t in range(n) if vals[t] == mn and s["plabel"][t] == p])
+        for choice in itertools.product(*per):
+            want = set()
+            for t in choice:
+                want.update(chain(t))
+            if sorted(want) == [t for t in range(n) if rel[t] == 1]:
+                ok = True
+        if not ok:
+            bad.append("relevant-flags-are-exactly-the-conquerors'-paths")
+        obs.update(relevant=rel, preds=preds, admissible=per)
+    else:
+        opf.fit(Xt, Yt)
+        opf.predict(Xv)
+        rel = [int(nd.relevant) for nd in opf.subgraph.nodes]
+        opf2 = sup.SupervisedOPF()
+        opf2.distance_fn = table
+        try:
+            opf2.prune(Xt, Yt, Xv, Yv, n_iterations=cfg["iters"])
+            final = sorted((float(nd.features[0]), int(nd.label)) for nd in opf2.subgraph.nodes)
+            pool = [(float(i), ltr[i]) for i in range(ntr)]
+            for r in final:
+                if r in pool:
+                    pool.remove(r)
+                else:
+                    bad.append("final-training-set-is-a-sub-multiset-with-labels-intact")
+                    break
+            if cfg["iters"] == 1 and final != sorted((float(i), ltr[i]) for i in range(ntr) if rel[i] == 1):
+                bad.append("pruning-keeps-exactly-the-relevant-samples")
+            obs["final"] = final
+        except Exception as ex:
+            obs["error"] = "%s: %s" % (type(ex).__name__, str(ex)[:200])
+    return dict(obs=obs, violated=bad)
+
+
+HANDLERS["learn"] = run_learn
